@@ -176,46 +176,51 @@ def refine_table(ctx):
     """Children of Grid.refine(): list of 4 triples over V*/M*."""
     m = ctx.repo.mod(GRID)
     fn = m.fn("Grid.refine")
-    loops = [s for s in fn.body if isinstance(s, ast.For)]
+    from . import roles
+
+    defs = roles.Defs(fn)
+    rets = [s for s in fn.body if isinstance(s, ast.Return)]
+    if not (len(rets) == 1 and isinstance(rets[0].value, ast.Call) and unparse(rets[0].value.func) == "Grid" and len(rets[0].value.args) >= 3
+            and all(isinstance(a, ast.Name) for a in rets[0].value.args[:3])):
+        raise AnalysisError("Grid.refine: does not return Grid(<vertices>, <elements>, <domain indices>) built from locals")
+    V, E, D = (a.id for a in rets[0].value.args[:3])
+    loops = [s for s in fn.body if isinstance(s, ast.For) and isinstance(s.target, ast.Tuple) and len(s.target.elts) == 2
+             and roles.canon(s.iter, defs).replace(" ", "") == "enumerate(self.elements.T)"]
     if len(loops) != 1:
-        raise AnalysisError("Grid.refine: expected one loop over elements")
+        raise AnalysisError("Grid.refine: expected one loop over enumerate(self.elements.T)")
     loop = loops[0]
-    if not (isinstance(loop.target, ast.Tuple) and len(loop.target.elts) == 2 and unparse(loop.iter).replace(" ", "") == "enumerate(self.elements.T)"):
-        raise AnalysisError("Grid.refine: loop is not `for index, elem in enumerate(self.elements.T)`")
     idx, elem = loop.target.elts[0].id, loop.target.elts[1].id
-    names = {}
+    S = roles.stores(fn.body, defs)
     children = {}
-    for st in loop.body:
-        if isinstance(st, ast.Assign) and isinstance(st.targets[0], ast.Name):
-            v = unparse(st.value).replace(" ", "")
-            nm = st.targets[0].id
-            for k in range(3):
-                if v == "%s[%d]" % (elem, k):
-                    names[nm] = "V%d" % k
-                if v in ("self.element_edges[%d,%s]+self.number_of_vertices" % (k, idx), "self.number_of_vertices+self.element_edges[%d,%s]" % (k, idx)):
-                    names[nm] = "M%d" % k
-            if nm not in names:
-                raise AnalysisError("Grid.refine: unrecognised vertex definition %s" % unparse(st))
-        elif isinstance(st, ast.Assign) and isinstance(st.targets[0], ast.Subscript):
-            t = st.targets[0]
-            if not (isinstance(t.value, ast.Name) and t.value.id == "new_elements" and isinstance(t.slice, ast.Tuple) and isinstance(t.slice.elts[0], ast.Slice)):
-                raise AnalysisError("Grid.refine: unexpected store %s" % unparse(t))
-            a, c = linear(t.slice.elts[1], idx)
-            if a != 4 or not 0 <= c < 4 or not isinstance(st.value, (ast.List, ast.Tuple)) or len(st.value.elts) != 3:
-                raise AnalysisError("Grid.refine: child slot %s is not 4*index + c" % unparse(t))
-            tri = []
-            for e in st.value.elts:
-                if not (isinstance(e, ast.Name) and e.id in names):
-                    raise AnalysisError("Grid.refine: child vertex %s is not a named vertex" % unparse(e))
-                tri.append(names[e.id])
-            children[c] = tri
-        else:
-            raise AnalysisError("Grid.refine: unexpected statement in element loop")
+    for s in S:
+        if not (isinstance(s.tnode, ast.Subscript) and unparse(s.tnode.value) == E):
+            continue
+        ln = s.node.lineno
+        slot = [c for c in range(4) if s.target in (roles.expect("E[:, 4*I + %d]" % c, defs, ln, E=E, I=idx),) + ((roles.expect("E[:, 4*I]", defs, ln, E=E, I=idx),) if c == 0 else ())]
+        if len(slot) != 1 or s.guards or s.loops != (loop,) or not isinstance(s.vnode, (ast.List, ast.Tuple)) or len(s.vnode.elts) != 3:
+            raise AnalysisError("Grid.refine: store `%s` is not a child triple at column 4*index + c" % unparse(s.node)[:80])
+        names = {}
+        for k in range(3):
+            names[roles.expect("X[%d]" % k, defs, ln, X=elem)] = "V%d" % k
+            names[roles.expect("self.element_edges[%d, I] + self.number_of_vertices" % k, defs, ln, I=idx)] = "M%d" % k
+        tri = []
+        for e in s.vnode.elts:
+            ce = roles.canon(e, defs, lv=True).replace(" ", "")
+            if ce not in names:
+                raise AnalysisError("Grid.refine: child vertex `%s` is neither a parent vertex nor an edge-midpoint vertex" % unparse(e))
+            tri.append(names[ce])
+        if slot[0] in children:
+            raise AnalysisError("Grid.refine: child %d stored twice" % slot[0])
+        children[slot[0]] = tri
     if sorted(children) != [0, 1, 2, 3]:
         raise AnalysisError("Grid.refine: children %s" % sorted(children))
-    src = unparse(fn).replace(" ", "")
-    mids_ok = "new_vertices[:,self.number_of_vertices:]=0.5*(self.vertices[:,self.edges[0,:]]+self.vertices[:,self.edges[1,:]])" in src
-    dom_ok = "new_domain_indices=_np.repeat(self.domain_indices,4)" in src
+    ln = rets[0].lineno
+    vs = {(s.target, s.value) for s in S if isinstance(s.tnode, ast.Subscript) and unparse(s.tnode.value) == V and not s.guards and not s.loops}
+    old = (roles.expect("V[:, :self.number_of_vertices]", defs, ln, V=V), roles.expect("self.vertices", defs, ln))
+    a, b = "self.vertices[:, self.edges[0, :]]", "self.vertices[:, self.edges[1, :]]"
+    mids = {(roles.expect("V[:, self.number_of_vertices:]", defs, ln, V=V), roles.expect(f, defs, ln)) for f in ("0.5 * (%s + %s)" % (a, b), "(%s + %s) / 2" % (a, b), "0.5 * %s + 0.5 * %s" % (a, b))}
+    mids_ok = old in vs and len(vs & mids) == 1 and len(vs) == 2
+    dom_ok = roles.canon(rets[0].value.args[2], defs).replace(" ", "") == roles.expect("_np.repeat(self.domain_indices, 4)", defs, ln)
     return [children[c] for c in range(4)], mids_ok, dom_ok, fn.lineno
 
 
